@@ -6,7 +6,7 @@
    The formulas are tied to the real _divisions() methods by the T-LAYER "divisions" correspondence of the C06 check.
    The *_refuted theorems record what the unfixed code did (defects D8, D10, D20, D35, D36 and seed C06_a). *)
 From DX Require Import Base Plan PlanProofs Repart RepartCount Divisions DivisionsProofs DivisionsExtra GeneratedClassTable ClassTableChecks ClassTableDivisions ClassTableLengthFlags.
-From DX Require Import MinMax MinMaxProofs PySeq GeneratedSource SourceChecks Loc LocProofs LocList LocListProofs.
+From DX Require Import MinMax MinMaxProofs PySeq GeneratedSource SourceChecks Loc LocProofs LocList LocListProofs SetIndex SetIndexProofs.
 Local Open Scope nat_scope.
 
 (* the executable test used by the harness on computed partitions means exactly the property *)
@@ -291,3 +291,22 @@ Theorem C06_align_nodedup_refuted :
     valid_divs (align_divisions ds) = true.
 Proof. exact align_nodedup_refuted. Qed.
 Print Assumptions C06_align_nodedup_refuted.
+
+(* set_index / sort_values on divisions: rows are routed by `set_partitions_pre` (SetIndex.v, tied by T-LAYER
+   `setindex_layer`); the reported divisions are truthful for the shuffled partitions whenever the keys lie inside the
+   closed range of the divisions (divisions computed from the data have min / max as their end points), every row is in
+   exactly one output partition, and the range hypothesis cannot be dropped. *)
+Theorem C06_set_index_truthful : forall divs rows, Divisions.sortedZ divs -> (2 <= length divs)%nat ->
+  keys_within divs rows -> Divisions.truthful divs (sp_parts divs rows).
+Proof. exact set_index_truthful. Qed.
+Print Assumptions C06_set_index_truthful.
+
+Theorem C06_set_index_partition_exact : forall divs rows i v, (i < length divs - 1)%nat ->
+  (In v (nth i (sp_parts divs rows) []) <-> In v rows /\ sp_part divs v = i).
+Proof. exact set_index_partition_exact. Qed.
+Print Assumptions C06_set_index_partition_exact.
+
+Theorem C06_set_index_below_refuted : exists divs rows, Divisions.sortedZ divs /\ (2 <= length divs)%nat /\
+  ~ Divisions.truthful divs (sp_parts divs rows).
+Proof. exact set_index_below_refuted. Qed.
+Print Assumptions C06_set_index_below_refuted.
